@@ -69,6 +69,8 @@ fn committed_alphabet() -> Vec<Op> {
         Op::Auto(del(1)),
         Op::Auto(Stmt::CreateTable(t2())),
         Op::Auto(Stmt::Insert { table: "t2".into(), rows: vec![vec![i(7)]] }),
+        // a CREATE TABLE that is refused (the name is taken): it must leave nothing behind that recovery trips over
+        Op::Auto(Stmt::CreateTable(t_text())),
         Op::Begin(1),
         Op::In(1, ins(5, "e")),
         Op::In(1, ins(6, "f")),
